@@ -170,6 +170,7 @@ func c01Alphabet(dates []string) []jr.Dir {
 }
 
 func c01Run(e *core.Env) {
+	e.ReserveTail()
 	drv := e.Driver()
 	type plan struct {
 		alpha []jr.Dir
@@ -246,6 +247,7 @@ func c01Run(e *core.Env) {
 		})
 		e.SetBound("journal_depth_"+pl.tag, pl.n)
 	}
+	e.BeginTail()
 	// position life histories: bought, sold out completely, bought again, sold out again ...
 	chainN := core.Pick(e, 4, 6)
 	var chainCfgs []ref.BalCfg
@@ -327,7 +329,7 @@ func init() {
 	core.Register(&core.Check{
 		ID: "C01", Level: "model_checking", Run: c01Run, Replay: c01Replay,
 		Added:       "position life histories (two foreign positions: buy, sell out, new price, unrelated booking; <= 4 | 6 steps) x valuation {CHF, USD, AAPL}; race detector on the valued accrual pipeline scenarios; Delta row of a two-year daily accrual on the free-running binary",
-		QuickBudget: 150 * time.Second, ThoroughBudget: 14 * time.Minute,
+		QuickBudget: 240 * time.Second, ThoroughBudget: 14 * time.Minute,
 		Rule: "every sequence of <= N body directives (positions in USD/AAPL/EUR on assets and a liability, sale to zero, income collision with a valuation account, negative transfer, two-commodity trade, monthly accrual, six price declarations incl. inverse and chained) x 3 dates, " +
 			"x valuation {none,CHF,USD} x --from/--to x 6 intervals x --last x --diff x --close, text and CSV; invariant: every cell of every Delta row is zero; non-trivial = valued runs that succeed",
 		Assumptions: []string{"valued runs that fail on a missing price are outside the property; they must fail cleanly and agree with the reference's missing-price rule"},
